@@ -19,7 +19,7 @@ def parseSfOp (w : String) : Option Op :=
   | _ => none
 
 def showSfOut : Out → String
-  | .chunk i => s!"c{i}" | .none => "n" | .fileEnd => "E" | .nothing => "-"
+  | .chunk i => s!"c{i}" | .none => "n" | .fileEnd => "E" | .nothing => "-" | .declined => "x"
 
 def showSfState (s : St) : String :=
   s!"{s.next} {s.inFlight} {showBool s.scheduleDone} {showBool s.endSent} {showBool s.verifyPending} {showBool s.resendPending} {s.resendChunk}"
